@@ -127,7 +127,8 @@ def coq_property(pid, timeout=2400):
         res['failed_at'] = m.group(0) if m else 'unknown'
         return res
     # re-run the property file alone to capture Print Assumptions
-    rc, out = sh(['timeout', '600', 'coqc', '-Q', '.', 'Borsh', '-o', CACHE + '/audit_%s.vo' % pid, 'Properties/%s.v' % pid], cwd=COQ)
+    os.makedirs(CACHE + '/audit', exist_ok=True)
+    rc, out = sh(['timeout', '600', 'coqc', '-Q', '.', 'Borsh', '-o', CACHE + '/audit/%s.vo' % pid, 'Properties/%s.v' % pid], cwd=COQ)
     res['log'] = out[-6000:]
     if rc != 0:
         res['problems'].append('property file does not check')
